@@ -6,8 +6,9 @@ package codon
 //
 // verif:bound C18 add clause: two full 64-codon tables of codes 1/2/11 (quick) or any of the 25 codes (thorough) with 128 symbolic 64-bit weights in [-2^40, 2^40]: every weight is the sum, letters / triplets / start and stop codons are the first table's
 // verif:bound C18 compromise clause: one amino acid with 2 (quick) / 2..3 (thorough) synonymous codons, weights of both tables enumerated over 0..3 (quick) / 0..5 (thorough) with at least one positive weight per table, cut-off a symbolic real in [-1, 2]
+// verif:bound C18 composition clause: compromise of two mini tables (weights enumerated 0..3 | 0..4, cut-off in {0, 0.2, 0.5, 1}) handed to Optimize: an error when no codon survives, otherwise the emitted codon has both shares at or above the cut-off
 // verif:assume C18 compromise: the shares int(float64(w)/float64(t)*10000) are computed concretely with real float64 arithmetic (weights are concrete on each path); only the cut-off is symbolic and int(10000*cutOff) is abstracted to real arithmetic with truncation (rounding of that product is outside the claim)
-// verif:bound C18 outside the claim: floating-point rounding of 10000*cutOff; tables re-weighted from long random sequences; the end-to-end optimisation with a compromise table beyond C07's threshold clause
+// verif:bound C18 outside the claim: floating-point rounding of 10000*cutOff; tables re-weighted from long random sequences; fully symbolic weights in the compromise
 
 func c18Table(id int, tag string) (Table, map[string]int) {
 	base := GetCodonTable(id)
@@ -132,6 +133,61 @@ func Harness_C18_Compromise() {
 		below, above := mustZero, mustMean
 		vCover("C18 a codon removed by the cut-off", vAnd(below, w1[i] > 0 && w2[i] > 0))
 		vCover("C18 a codon kept with a positive cut-off", vAnd(above, cut > 0))
+	}
+}
+
+// a gene optimised with a compromise table never uses a codon rarer than the cut-off in either organism
+func Harness_C18_OptimiseWithCompromise() {
+	k := 2 + vChoice(vTier(1, 2))
+	hi := vTier(4, 5)
+	w1 := make([]int, k)
+	w2 := make([]int, k)
+	t1, t2 := 0, 0
+	for i := 0; i < k; i++ {
+		w1[i] = vChoice(hi)
+		w2[i] = vChoice(hi)
+		t1 += w1[i]
+		t2 += w2[i]
+	}
+	if t1 == 0 || t2 == 0 {
+		vAssume(false)
+	}
+	cut := []float64{0, 0.2, 0.5, 1}[vChoice(4)]
+	comp, err := CompromiseCodonTable(c18Mini(w1), c18Mini(w2), cut)
+	vAssert(err == nil, "cutoff-accepted")
+	if err != nil {
+		return
+	}
+	var dna string
+	var oerr error
+	panicked := vPanics(func() { dna, oerr = Optimize("A", comp) })
+	vAssert(!panicked, "optimise-does-not-panic")
+	if panicked {
+		return
+	}
+	usable := false
+	for _, c := range comp.AminoAcids[0].Codons {
+		if c.Weight > 0 {
+			usable = true
+		}
+	}
+	if !usable {
+		vAssert(oerr != nil, "no-codon-above-the-cutoff-is-an-error")
+		return
+	}
+	if oerr != nil {
+		return // every remaining codon may still be below the optimiser's own 10% threshold
+	}
+	triplets := []string{"GCT", "GCC", "GCA"}
+	for i := 0; i < k; i++ {
+		if dna == triplets[i] {
+			// shares as the code computes them (truncated to 1/10000)
+			s1 := int(float64(w1[i]) / float64(t1) * 10000)
+			s2 := int(float64(w2[i]) / float64(t2) * 10000)
+			cw := int(10000 * cut)
+			vAssert(s1 >= cw && s2 >= cw, "optimised-gene-uses-no-codon-rarer-than-the-cutoff-in-either-organism")
+			vAssert(comp.AminoAcids[0].Codons[i].Weight > 0, "optimised-gene-uses-only-codons-kept-by-the-compromise")
+		}
 	}
 }
 
